@@ -95,10 +95,12 @@ uint32_t VF_BUILD_USED(void* self, uint8_t* map, uint8_t* used)
 }
 #endif
 
+static unsigned pos_sel;   /* 37 = all positions */
 static void check_table(const uint8_t* map, unsigned hop)
 {
     build_rank(map);
     for (unsigned e = 0; e < 37; ++e) {
+        if (pos_sel != 37 && e != pos_sel) continue;
         unsigned ch = cm_data_channel(e);
         OBSERVE(ch);
         CHECK(is_csa1(map, hop, e, ch), "data channel equals CSA#1");
@@ -111,6 +113,7 @@ void harness(void)
     const int mode = (int)CASE(MODE);
     const int hopc = (int)CASE(HOP);
     const unsigned pos = (unsigned)CASE(POS);
+    pos_sel = pos;
     uint8_t* map = (uint8_t*)vf_alloc(5);
     uint8_t* map2 = (uint8_t*)vf_alloc(5);
     uint8_t before[37];
